@@ -104,6 +104,11 @@ func OddProfile(r *rand.Rand) *profile.Profile {
 			if r.Intn(2) == 0 {
 				s.NumUnit = map[string][]string{"bytes": {units[r.Intn(len(units))]}}
 			}
+			if r.Intn(3) == 0 {
+				// multi-valued with partial units: a value with a unit followed by values without
+				s.NumLabel["request"] = []int64{4, 16, 0, 9}[:2+r.Intn(3)]
+				s.NumUnit = map[string][]string{"request": [][]string{{"kilobytes", "", "", ""}, {"", "bytes", "", ""}, {"kb", "kb", "", "b"}}[r.Intn(3)][:len(s.NumLabel["request"])]}
+			}
 		}
 		p.Sample = append(p.Sample, s)
 	}
